@@ -234,6 +234,38 @@ Theorem mode_lost_refuted :
 Proof. exact mode_lost_refuted_lemma. Qed.
 Print Assumptions mode_lost_refuted.
 
+(* ---- deepening round 3 -------------------------------------------------------------------------- *)
+(* a purely shrinking mutation introduces no fresh value at all *)
+Theorem shrink_all_from_old : forall (A : Type) (old new : named A) k op p,
+  wf_named old -> wf_named new ->
+  lookup k old = Some op -> lookup k new = Some p -> size_le (p_size p) (p_size op) = true ->
+  exists rp, lookup k (preserve old new) = Some rp /\
+    forall ix b, get (p_data rp) ix = Some b -> get (p_data op) ix = Some b.
+Proof. exact @shrink_all_from_old_lemma. Qed.
+Print Assumptions shrink_all_from_old.
+
+(* tied weights (two names bound to one tensor) whose size is unchanged stay bound to one tensor *)
+Theorem preserve_keeps_ties : forall (A : Type) (old new : named A) k1 k2 op p1 p2,
+  lookup k1 old = Some op -> lookup k2 old = Some op ->
+  lookup k1 new = Some p1 -> lookup k2 new = Some p2 ->
+  p_size p1 = p_size op -> p_size p2 = p_size op ->
+  lookup k1 (preserve old new) = Some op /\ lookup k2 (preserve old new) = Some op.
+Proof. exact @preserve_keeps_ties_lemma. Qed.
+Print Assumptions preserve_keeps_ties.
+
+(* after a chain of re-creations of any length the names and sizes are those of the last architecture *)
+Theorem chain_signature : forall (A : Type) (fs : list (named A)) (old : named A),
+  sig_of (run_chain old fs) = sig_of (last fs old).
+Proof. exact @chain_signature_lemma. Qed.
+Print Assumptions chain_signature.
+
+(* a chain of clone() calls of any length returns the parameters of the first ancestor *)
+Theorem clone_chain : forall (A : Type) (freshes : list (named A)) (self : named A),
+  NoDup (map fst self) -> Forall (same_sig self) freshes ->
+  fold_left (fun cur fresh => clone cur fresh) freshes self = self.
+Proof. exact @clone_chain_lemma. Qed.
+Print Assumptions clone_chain.
+
 (* ---- non-vacuity ---------------------------------------------------------------------------- *)
 Definition ex_old : named nat :=
   [("l.weight"%string, {| p_size := [2;2]; p_data := Dim [Dim [Sc 1; Sc 2]; Dim [Sc 3; Sc 4]] |});
@@ -271,3 +303,19 @@ Proof.
   - right; left. split; cbn; auto.
   - right; left. split; cbn; auto.
 Qed.
+
+Definition tie_old : named nat :=
+  [("wte.weight"%string, {| p_size := [2]; p_data := Dim [Sc 4; Sc 5] |});
+   ("h.w"%string, {| p_size := [3]; p_data := Dim [Sc 1; Sc 2; Sc 3] |});
+   ("lm_head.weight"%string, {| p_size := [2]; p_data := Dim [Sc 4; Sc 5] |})].
+Definition tie_new : named nat :=
+  [("wte.weight"%string, {| p_size := [2]; p_data := Dim [Sc 0; Sc 0] |});
+   ("h.w"%string, {| p_size := [2]; p_data := Dim [Sc 0; Sc 0] |});
+   ("lm_head.weight"%string, {| p_size := [2]; p_data := Dim [Sc 9; Sc 9] |})].
+(* a tied pair survives while another parameter shrinks (and takes only old values); the signature is the new one *)
+Example round3_nonvacuous :
+  lookup "wte.weight"%string (preserve tie_old tie_new) = lookup "lm_head.weight"%string (preserve tie_old tie_new) /\
+  lookup "h.w"%string (preserve tie_old tie_new) = Some {| p_size := [2]; p_data := Dim [Sc 1; Sc 2] |} /\
+  size_le [2] [3] = true /\ sig_of (run_chain tie_old [tie_new; tie_old; tie_new]) = sig_of tie_new /\
+  fold_left (fun cur fresh => clone cur fresh) [tie_old; tie_old] tie_old = tie_old.
+Proof. repeat split; reflexivity. Qed.
